@@ -175,7 +175,7 @@ func Main() {
 	}
 	procs := core.Opts{Procs: 16, StallSec: 120}
 	if r.Quick() {
-		r.Cases("history", 3000, procs, history)
+		r.Cases("history", 8000, procs, history)
 	} else {
 		// several groups so that no child process lives long (every snapshot tree leaks its fastcache arena)
 		for g := 0; g < 10; g++ {
